@@ -89,6 +89,20 @@ MUTANTS = [
         ('a5/projections/dodecahedron.py', "        return self.polyhedral.forward(unprojected, spherical_triangle, face_triangle)\n",
          "        self._fv = self.polyhedral.forward(unprojected, spherical_triangle, face_triangle)\n        return self._fv\n"),
     ], 1200),
+    ('c17_lock_not_released_when_call_is_aborted', 'C17', 'violation', [
+        ('a5/projections/polyhedral.py', "        self._inverse_triangle_cache: Dict[Tuple, Dict] = {}\n",
+         "        self._inverse_triangle_cache: Dict[Tuple, Dict] = {}\n        import threading\n        self._lk = threading.Lock()\n"),
+        ('a5/projections/polyhedral.py', "        cache_key = (tuple(A), tuple(B), tuple(C))\n        \n", "        cache_key = (tuple(A), tuple(B), tuple(C))\n        self._lk.acquire()\n"),
+        ('a5/projections/polyhedral.py', "        return self._inverse_triangle_cache[cache_key]\n", "        self._lk.release()\n        return self._inverse_triangle_cache[cache_key]\n"),
+    ], 1500),
+    ('c16_control_condition_guarded_cache_fill', 'C16', 'silent', [
+        ('a5/projections/dodecahedron.py', "        self.gnomonic = GnomonicProjection()\n",
+         "        self.gnomonic = GnomonicProjection()\n        import threading\n        self._cv = threading.Condition()\n        self._filling = set()\n        self._sem = threading.BoundedSemaphore(2)\n        self._ready = threading.Event()\n"),
+        ('a5/projections/dodecahedron.py',
+         "        self.spherical_triangles[index] = self._get_spherical_triangle(face_triangle_index, origin_id, reflected)\n        return self.spherical_triangles[index]\n",
+         "        with self._cv:\n            while index in self._filling:\n                self._cv.wait()\n            if self.spherical_triangles[index] is not None:\n                return self.spherical_triangles[index]\n            self._filling.add(index)\n"
+         "        val = None\n        try:\n            with self._sem:\n                val = self._get_spherical_triangle(face_triangle_index, origin_id, reflected)\n        finally:\n            with self._cv:\n                if val is not None:\n                    self.spherical_triangles[index] = val\n                self._filling.discard(index)\n                self._cv.notify_all()\n            self._ready.set()\n        self._ready.wait()\n        return val\n"),
+    ], 600),
 ]
 
 
